@@ -25,7 +25,7 @@ type ity string // "I64", "U64", "U32", "I32", "U8"; "" = untyped constant; "B" 
 
 var typeNames = map[string]ity{
 	"int": "I64", "int64": "I64", "uint64": "U64", "uint": "U64", "uint32": "U32", "int32": "I32",
-	"uint8": "U8", "byte": "U8",
+	"uint8": "U8", "byte": "U8", "bool": "B", "any": "ANY",
 	// named integer types of the repository (checked against their declarations in checkNamedTypes)
 	"View": "U64", "hotstuff.View": "U64", "ID": "U32", "hotstuff.ID": "U32",
 }
@@ -40,6 +40,12 @@ type fn struct {
 	named    string // named result, or ""
 	multi    []string // several named results (tuple-valued function)
 	mtypes   []ity
+	recv     string   // receiver name of a method, or ""
+	recvType string
+	state    []string // translated fields of the receiver, as "recv.field"
+	stypes   []ity
+	ignored  map[string]bool // receiver fields that are not translated (mutexes, channels)
+	rtypes   []ity    // result types of an unnamed multi-result method
 	hasLoop  bool   // own body contains a loop
 	needFuel bool   // hasLoop or calls a function that needs fuel
 	calls    []string
@@ -80,11 +86,47 @@ func typeOfExpr(x ast.Expr) (ity, bool) {
 			ty, ok := typeNames[p.Name+"."+v.Sel.Name]
 			return ty, ok
 		}
+	case *ast.InterfaceType:
+		if v.Methods == nil || len(v.Methods.List) == 0 {
+			return "ANY", true
+		}
+	case *ast.ArrayType:
+		if v.Len == nil {
+			if el, ok := typeOfExpr(v.Elt); ok && el == "ANY" {
+				return "SLICE_ANY", true
+			}
+		}
 	}
 	return "", false
 }
 
-func cv(name string) string { return "v_" + name }
+// coqType is the Gallina type of a Go value of the given translated type: integers are Z, bool is bool,
+// an `any` value is an opaque token or nil (option Z), a []any is a list of those.
+func coqType(ty ity) string {
+	switch ty {
+	case "B":
+		return "bool"
+	case "ANY":
+		return "option Z"
+	case "SLICE_ANY":
+		return "list (option Z)"
+	}
+	return "Z"
+}
+
+func zeroOf(ty ity) string {
+	switch ty {
+	case "B":
+		return "false"
+	case "ANY":
+		return "None"
+	case "SLICE_ANY":
+		return "nil"
+	}
+	return "0"
+}
+
+func cv(name string) string { return "v_" + strings.ReplaceAll(name, ".", "_") }
 
 // fname is the Gallina name of a translated function (Go names that collide with common Coq names get a suffix)
 func fname(name string) string {
@@ -93,6 +135,37 @@ func fname(name string) string {
 		return name + "_"
 	}
 	return name
+}
+
+// lname gives the environment name of an assignable expression: a local variable, or a translated field of the
+// method's receiver ("q.head").
+func (t *tr) lname(e ast.Expr) (string, bool) {
+	switch v := e.(type) {
+	case *ast.Ident:
+		return v.Name, true
+	case *ast.SelectorExpr:
+		if id, ok := v.X.(*ast.Ident); ok && t.cur != nil && t.cur.recv != "" && id.Name == t.cur.recv {
+			return id.Name + "." + v.Sel.Name, true
+		}
+	}
+	return "", false
+}
+
+// touchesIgnored reports whether the expression is rooted in a receiver field that is not translated.
+func (t *tr) touchesIgnored(e ast.Expr) bool {
+	for {
+		switch v := e.(type) {
+		case *ast.CallExpr:
+			e = v.Fun
+		case *ast.SelectorExpr:
+			if id, ok := v.X.(*ast.Ident); ok && t.cur != nil && id.Name == t.cur.recv {
+				return t.cur.ignored[v.Sel.Name]
+			}
+			e = v.X
+		default:
+			return false
+		}
+	}
 }
 
 // ---- types of expressions ----
@@ -108,10 +181,25 @@ func (t *tr) typeOf(e ast.Expr, en env) ity {
 		if v.Name == "true" || v.Name == "false" {
 			return "B"
 		}
+		if v.Name == "nil" {
+			return "ANY"
+		}
 		if ty, ok := en[v.Name]; ok {
 			return ty
 		}
 		fail(t.pos(e), "identifier %s is not a local integer variable", v.Name)
+	case *ast.SelectorExpr:
+		if n, ok := t.lname(e); ok {
+			if ty, ok := en[n]; ok {
+				return ty
+			}
+		}
+		fail(t.pos(e), "selector that is not a translated receiver field")
+	case *ast.IndexExpr:
+		if t.typeOf(v.X, en) == "SLICE_ANY" {
+			return "ANY"
+		}
+		fail(t.pos(e), "index into something that is not a []any")
 	case *ast.ParenExpr:
 		return t.typeOf(v.X, en)
 	case *ast.UnaryExpr:
@@ -133,6 +221,9 @@ func (t *tr) typeOf(e ast.Expr, en env) ity {
 		}
 		return a
 	case *ast.CallExpr:
+		if id, ok := v.Fun.(*ast.Ident); ok && id.Name == "len" && len(v.Args) == 1 {
+			return "I64"
+		}
 		if ty, ok := typeOfExpr(v.Fun); ok && len(v.Args) == 1 {
 			return ty
 		}
@@ -203,6 +294,15 @@ func (t *tr) exprZ(e ast.Expr, en env, want ity) string {
 			fail(t.pos(e), "identifier %s is not a local integer variable", v.Name)
 		}
 		return fmt.Sprintf("(Val %s)", cv(v.Name))
+	case *ast.SelectorExpr:
+		n, ok := t.lname(e)
+		if !ok {
+			fail(t.pos(e), "selector that is not a translated receiver field")
+		}
+		if _, ok := en[n]; !ok {
+			fail(t.pos(e), "field %s is not translated", n)
+		}
+		return fmt.Sprintf("(Val %s)", cv(n))
 	case *ast.ParenExpr:
 		return t.exprZ(v.X, en, want)
 	case *ast.UnaryExpr:
@@ -247,6 +347,13 @@ func (t *tr) exprZ(e ast.Expr, en env, want ity) string {
 		a, b := t.tmp(), t.tmp()
 		return fmt.Sprintf("(%s <- %s ;; %s <- %s ;; %s %s %s %s)", a, t.exprZ(v.X, en, ty), b, t.exprZ(v.Y, en, ty), op, ty, a, b)
 	case *ast.CallExpr:
+		if id, ok := v.Fun.(*ast.Ident); ok && id.Name == "len" && len(v.Args) == 1 {
+			n, ok := t.lname(v.Args[0])
+			if !ok || en[n] != "SLICE_ANY" {
+				fail(t.pos(e), "len of something that is not a translated []any")
+			}
+			return fmt.Sprintf("(go_len %s)", cv(n))
+		}
 		if inner, ok := ceilHalfIdiom(v); ok {
 			if ty := t.typeOf(inner, en); ty != "I64" && ty != "" {
 				fail(t.pos(e), "int(math.Ceil(float64(x)/2.0)) with x of type %s", ty)
@@ -295,6 +402,44 @@ func (t *tr) exprZ(e ast.Expr, en env, want ity) string {
 	return ""
 }
 
+// exprA translates an expression of type any: nil, a variable, or a read of a []any slot (which panics when the
+// index is out of range).
+func (t *tr) exprA(e ast.Expr, en env) string {
+	switch v := e.(type) {
+	case *ast.ParenExpr:
+		return t.exprA(v.X, en)
+	case *ast.Ident:
+		if v.Name == "nil" {
+			return "(Val (None : option Z))"
+		}
+		if en[v.Name] == "ANY" {
+			return fmt.Sprintf("(Val %s)", cv(v.Name))
+		}
+	case *ast.IndexExpr:
+		n, ok := t.lname(v.X)
+		if !ok || en[n] != "SLICE_ANY" {
+			fail(t.pos(e), "index into something that is not a translated []any")
+		}
+		i := t.tmp()
+		return fmt.Sprintf("(%s <- %s ;; go_index %s %s)", i, t.exprZ(v.Index, en, "I64"), cv(n), i)
+	}
+	fail(t.pos(e), "expression of type any: %T", e)
+	return ""
+}
+
+// exprOf translates an expression whose Go type is known.
+func (t *tr) exprOf(e ast.Expr, en env, ty ity) string {
+	switch ty {
+	case "B":
+		return t.exprB(e, en)
+	case "ANY":
+		return t.exprA(e, en)
+	case "SLICE_ANY":
+		fail(t.pos(e), "slice-valued expression")
+	}
+	return t.exprZ(e, en, ty)
+}
+
 func (t *tr) exprB(e ast.Expr, en env) string {
 	switch v := e.(type) {
 	case *ast.ParenExpr:
@@ -302,6 +447,9 @@ func (t *tr) exprB(e ast.Expr, en env) string {
 	case *ast.Ident:
 		if v.Name == "true" || v.Name == "false" {
 			return "(Val " + v.Name + ")"
+		}
+		if en[v.Name] == "B" {
+			return fmt.Sprintf("(Val %s)", cv(v.Name))
 		}
 	case *ast.UnaryExpr:
 		if v.Op == token.NOT {
@@ -401,56 +549,90 @@ func (t *tr) stmts(list []ast.Stmt, en env, depth int, k func(env) string) strin
 		if len(v.Lhs) != 1 || len(v.Rhs) != 1 {
 			fail(t.pos(s), "multiple assignment")
 		}
-		id, ok := v.Lhs[0].(*ast.Ident)
+		if ix, ok := v.Lhs[0].(*ast.IndexExpr); ok && v.Tok == token.ASSIGN {
+			n, ok := t.lname(ix.X)
+			if !ok || en[n] != "SLICE_ANY" {
+				fail(t.pos(s), "assignment to a slot of something that is not a translated []any")
+			}
+			i, x := t.tmp(), t.tmp()
+			rhs := fmt.Sprintf("(%s <- %s ;; %s <- %s ;; go_set_index %s %s %s)", i, t.exprZ(ix.Index, en, "I64"), x, t.exprA(v.Rhs[0], en), cv(n), i, x)
+			return assign(n, "SLICE_ANY", rhs, en)
+		}
+		name, ok := t.lname(v.Lhs[0])
 		if !ok {
 			fail(t.pos(s), "assignment to a non-variable")
 		}
+		id := &ast.Ident{Name: name, NamePos: v.Lhs[0].Pos()}
 		switch v.Tok {
 		case token.DEFINE:
 			if _, exists := en[id.Name]; exists && depth > 0 {
 				fail(t.pos(s), "redeclaration of %s in a nested block", id.Name)
 			}
 			ty := t.typeOf(v.Rhs[0], en)
-			if ty == "B" {
-				fail(t.pos(s), "boolean variable")
-			}
 			if ty == "" {
 				ty = "I64"
 			}
-			return assign(id.Name, ty, t.exprZ(v.Rhs[0], en, ty), en)
+			return assign(id.Name, ty, t.exprOf(v.Rhs[0], en, ty), en)
 		case token.ASSIGN:
 			ty, ok := en[id.Name]
 			if !ok {
-				fail(t.pos(s), "assignment to %s, which is not a local integer variable", id.Name)
+				fail(t.pos(s), "assignment to %s, which is not a translated variable or field", id.Name)
 			}
-			return assign(id.Name, ty, t.exprZ(v.Rhs[0], en, ty), en)
+			return assign(id.Name, ty, t.exprOf(v.Rhs[0], en, ty), en)
 		default:
 			ty, ok := en[id.Name]
 			if !ok {
-				fail(t.pos(s), "assignment to %s, which is not a local integer variable", id.Name)
+				fail(t.pos(s), "assignment to %s, which is not a translated variable or field", id.Name)
 			}
 			op, ok := map[token.Token]token.Token{token.ADD_ASSIGN: token.ADD, token.SUB_ASSIGN: token.SUB, token.MUL_ASSIGN: token.MUL, token.QUO_ASSIGN: token.QUO, token.REM_ASSIGN: token.REM}[v.Tok]
 			if !ok {
 				fail(t.pos(s), "assignment operator %s", v.Tok)
 			}
-			be := &ast.BinaryExpr{X: id, Op: op, Y: v.Rhs[0], OpPos: v.Pos()}
+			be := &ast.BinaryExpr{X: v.Lhs[0], Op: op, Y: v.Rhs[0], OpPos: v.Pos()}
 			return assign(id.Name, ty, t.exprZ(be, en, ty), en)
 		}
 	case *ast.IncDecStmt:
-		id, ok := v.X.(*ast.Ident)
+		name, ok := t.lname(v.X)
 		if !ok {
 			fail(t.pos(s), "++/-- on a non-variable")
 		}
-		ty, ok := en[id.Name]
+		ty, ok := en[name]
 		if !ok {
-			fail(t.pos(s), "%s is not a local integer variable", id.Name)
+			fail(t.pos(s), "%s is not a translated variable or field", name)
 		}
 		op := token.ADD
 		if v.Tok == token.DEC {
 			op = token.SUB
 		}
-		be := &ast.BinaryExpr{X: id, Op: op, Y: &ast.BasicLit{Kind: token.INT, Value: "1"}, OpPos: v.Pos()}
-		return assign(id.Name, ty, t.exprZ(be, en, ty), en)
+		be := &ast.BinaryExpr{X: v.X, Op: op, Y: &ast.BasicLit{Kind: token.INT, Value: "1"}, OpPos: v.Pos()}
+		return assign(name, ty, t.exprZ(be, en, ty), en)
+	case *ast.ExprStmt:
+		// calls on receiver fields that are not translated (q.mut.Lock()) have no effect on the translated state
+		if c, ok := v.X.(*ast.CallExpr); ok && t.touchesIgnored(c) {
+			return next(en)
+		}
+		fail(t.pos(s), "expression statement")
+	case *ast.DeferStmt:
+		if t.touchesIgnored(v.Call) {
+			return next(en)
+		}
+		fail(t.pos(s), "defer")
+	case *ast.SelectStmt:
+		// a non-blocking send on an untranslated channel field (the wake-up signal) is skipped
+		for _, c := range v.Body.List {
+			cc := c.(*ast.CommClause)
+			if len(cc.Body) != 0 {
+				fail(t.pos(s), "select with a non-empty clause")
+			}
+			if cc.Comm == nil {
+				continue
+			}
+			snd, ok := cc.Comm.(*ast.SendStmt)
+			if !ok || !t.touchesIgnored(snd.Chan) {
+				fail(t.pos(s), "select on something other than an untranslated channel field")
+			}
+		}
+		return next(en)
 	case *ast.DeclStmt:
 		gd, ok := v.Decl.(*ast.GenDecl)
 		if !ok || gd.Tok != token.VAR || len(gd.Specs) != 1 {
@@ -486,6 +668,9 @@ func (t *tr) stmts(list []ast.Stmt, en env, depth int, k func(env) string) strin
 		}
 		return assign(name, ty, rhs, en)
 	case *ast.ReturnStmt:
+		if t.cur.recv != "" {
+			return t.methodReturn(v, en)
+		}
 		if len(t.cur.multi) > 0 {
 			if len(v.Results) == 0 {
 				return t.tupleOfNamed()
@@ -603,6 +788,40 @@ func restrict(inner, outer env) env {
 	return r
 }
 
+// methodReturn: a method returns its (possibly updated) translated receiver fields followed by its results.
+func (t *tr) methodReturn(v *ast.ReturnStmt, en env) string {
+	f := t.cur
+	var sb strings.Builder
+	var vals []string
+	for _, st := range f.state {
+		vals = append(vals, cv(st))
+	}
+	sb.WriteString("(")
+	if v == nil || len(v.Results) == 0 {
+		for i, n := range f.multi {
+			if n == "" {
+				fail(t.pos(f.decl), "bare return with an unnamed result %d", i)
+			}
+			vals = append(vals, cv(n))
+		}
+	} else {
+		if len(v.Results) != len(f.rtypes) {
+			fail(t.pos(v), "return of %d values", len(v.Results))
+		}
+		for i, r := range v.Results {
+			n := t.tmp()
+			fmt.Fprintf(&sb, "%s <- %s ;; ", n, t.exprOf(r, en, f.rtypes[i]))
+			vals = append(vals, n)
+		}
+	}
+	if len(vals) == 1 {
+		sb.WriteString("Val " + vals[0] + ")")
+	} else {
+		sb.WriteString("Val (" + strings.Join(vals, ", ") + "))")
+	}
+	return sb.String()
+}
+
 func (t *tr) tupleOfNamed() string {
 	var names []string
 	for _, n := range t.cur.multi {
@@ -616,6 +835,35 @@ func (t *tr) function(f *fn) string {
 	en := env{}
 	var sb strings.Builder
 	fmt.Fprintf(&sb, "(* %s, sha256 of the source text %x\n%s\n*)\n", f.file, sha256.Sum256([]byte(f.src)), strings.ReplaceAll(f.src, "*)", "* )"))
+	if f.recv != "" {
+		fmt.Fprintf(&sb, "Definition %s_%s", f.recvType, f.decl.Name.Name)
+		if f.needFuel {
+			sb.WriteString(" (fuel : nat)")
+		}
+		var rts []string
+		for i, st := range f.state {
+			fmt.Fprintf(&sb, " (%s : %s)", cv(st), coqType(f.stypes[i]))
+			en[st] = f.stypes[i]
+			rts = append(rts, coqType(f.stypes[i]))
+		}
+		for i, p := range f.params {
+			fmt.Fprintf(&sb, " (%s : %s)", cv(p), coqType(f.ptypes[i]))
+			en[p] = f.ptypes[i]
+		}
+		for _, rt := range f.rtypes {
+			rts = append(rts, coqType(rt))
+		}
+		sb.WriteString(" : res (" + strings.Join(rts, " * ") + ") :=\n")
+		for i, n := range f.multi {
+			if n != "" {
+				en[n] = f.rtypes[i]
+				fmt.Fprintf(&sb, " let %s : %s := %s in\n", cv(n), coqType(f.rtypes[i]), zeroOf(f.rtypes[i]))
+			}
+		}
+		body := t.stmts(f.decl.Body.List, en, 0, func(en2 env) string { return t.methodReturn(nil, en2) })
+		sb.WriteString(" " + body + ".\n\n")
+		return sb.String()
+	}
 	fmt.Fprintf(&sb, "Definition %s", fname(f.decl.Name.Name))
 	if f.needFuel {
 		sb.WriteString(" (fuel : nat)")
@@ -680,20 +928,40 @@ func main() {
 			checkNamedTypes(file)
 			for _, name := range strings.Split(parts[1], ",") {
 				var found *ast.FuncDecl
+				recvType, method := "", name
+				if i := strings.Index(name, "."); i >= 0 {
+					recvType, method = name[:i], name[i+1:]
+				}
 				for _, d := range file.Decls {
-					if fd, ok := d.(*ast.FuncDecl); ok && fd.Name.Name == name && fd.Recv == nil {
+					fd, ok := d.(*ast.FuncDecl)
+					if !ok || fd.Name.Name != method {
+						continue
+					}
+					if recvType == "" && fd.Recv == nil {
 						found = fd
+					}
+					if recvType != "" && fd.Recv != nil && len(fd.Recv.List) == 1 {
+						rt := fd.Recv.List[0].Type
+						if st, ok := rt.(*ast.StarExpr); ok {
+							rt = st.X
+						}
+						if id, ok := rt.(*ast.Ident); ok && id.Name == recvType {
+							found = fd
+						}
 					}
 				}
 				if found == nil || found.Body == nil {
-					panic(fmt.Sprintf("%s: function %s not found (or has a receiver)", parts[0], name))
+					panic(fmt.Sprintf("%s: function %s not found", parts[0], name))
 				}
 				var src strings.Builder
-				_ = printer.Fprint(&src, t.fset, &ast.FuncDecl{Name: found.Name, Type: found.Type, Body: found.Body})
+				_ = printer.Fprint(&src, t.fset, &ast.FuncDecl{Recv: found.Recv, Name: found.Name, Type: found.Type, Body: found.Body})
 				f := &fn{decl: found, file: parts[0], src: src.String()}
 				for _, fld := range found.Type.Params.List {
 					ty, ok := typeOfExpr(fld.Type)
-					if !ok {
+					if !ok || ty == "SLICE_ANY" {
+						fail(t.pos(fld), "parameter of an untranslated type")
+					}
+					if recvType == "" && (ty == "B" || ty == "ANY") {
 						fail(t.pos(fld), "parameter of a non-integer type")
 					}
 					if len(fld.Names) == 0 {
@@ -704,22 +972,70 @@ func main() {
 						f.ptypes = append(f.ptypes, ty)
 					}
 				}
-				if found.Type.Results == nil || len(found.Type.Results.List) != 1 {
-					fail(t.pos(found), "function without exactly one result group")
-				}
-				rf := found.Type.Results.List[0]
-				ty, ok := typeOfExpr(rf.Type)
-				if !ok {
-					fail(t.pos(rf), "result of a non-integer type")
-				}
-				f.result = ty
-				if len(rf.Names) == 1 {
-					f.named = rf.Names[0].Name
-				}
-				if len(rf.Names) > 1 {
-					for _, n := range rf.Names {
-						f.multi = append(f.multi, n.Name)
-						f.mtypes = append(f.mtypes, ty)
+				if recvType != "" {
+					// a method: its receiver's fields of translated types become explicit state
+					if len(found.Recv.List[0].Names) != 1 {
+						fail(t.pos(found), "method with an unnamed receiver")
+					}
+					f.recv, f.recvType, f.ignored = found.Recv.List[0].Names[0].Name, recvType, map[string]bool{}
+					var sd *ast.StructType
+					for _, d := range file.Decls {
+						if gd, ok := d.(*ast.GenDecl); ok && gd.Tok == token.TYPE {
+							for _, sp := range gd.Specs {
+								if ts := sp.(*ast.TypeSpec); ts.Name.Name == recvType {
+									sd, _ = ts.Type.(*ast.StructType)
+								}
+							}
+						}
+					}
+					if sd == nil {
+						panic(fmt.Sprintf("%s: struct type %s not found", parts[0], recvType))
+					}
+					for _, fld := range sd.Fields.List {
+						ty, ok := typeOfExpr(fld.Type)
+						for _, n := range fld.Names {
+							if ok {
+								f.state = append(f.state, f.recv+"."+n.Name)
+								f.stypes = append(f.stypes, ty)
+							} else {
+								f.ignored[n.Name] = true
+							}
+						}
+					}
+					if found.Type.Results != nil {
+						for _, rf := range found.Type.Results.List {
+							ty, ok := typeOfExpr(rf.Type)
+							if !ok || ty == "SLICE_ANY" {
+								fail(t.pos(rf), "result of an untranslated type")
+							}
+							if len(rf.Names) == 0 {
+								f.multi = append(f.multi, "")
+								f.rtypes = append(f.rtypes, ty)
+							}
+							for _, n := range rf.Names {
+								f.multi = append(f.multi, n.Name)
+								f.rtypes = append(f.rtypes, ty)
+							}
+						}
+					}
+				} else {
+					if found.Type.Results == nil || len(found.Type.Results.List) != 1 {
+						fail(t.pos(found), "function without exactly one result group")
+					}
+					rf := found.Type.Results.List[0]
+					ty, ok := typeOfExpr(rf.Type)
+					if !ok || ty == "B" || ty == "ANY" || ty == "SLICE_ANY" {
+						fail(t.pos(rf), "result of a non-integer type")
+					}
+					f.result = ty
+					if len(rf.Names) == 1 {
+						f.named = rf.Names[0].Name
+					}
+					if len(rf.Names) > 1 {
+						for _, n := range rf.Names {
+							f.multi = append(f.multi, n.Name)
+							f.mtypes = append(f.mtypes, ty)
+						}
 					}
 				}
 				ast.Inspect(found.Body, func(n ast.Node) bool {
